@@ -7,7 +7,7 @@
    what Decoder.Bytes makes of the whole body.  [respond ... = (o, true)] reads: the caller, reading
    with buffers of the given sizes, reached io.EOF and received o in total. *)
 From ReqV Require Import Lib.Bytes Model.Charset Model.CharsetFind Proofs.CharsetProofs Proofs.CharsetTermination
-     Proofs.CharsetFindProofs Proofs.CharsetPinned.
+     Proofs.CharsetFindProofs Proofs.CharsetPinned Proofs.CharsetToyStream.
 
 (* for every body, every split into network reads, every sequence of caller buffer sizes and every
    hand-out schedule of the x/text reader: the delivered body is the original bytes or the
@@ -267,6 +267,14 @@ Theorem C15_two_results_only_pinned_refuted :
         o <> concat chunks /\ (forall e, o <> dec_all e (concat chunks))).
 Proof. exact two_results_only_pinned_refuted. Qed.
 Print Assumptions C15_two_results_only_pinned_refuted.
+
+(* the hypothesis decoder_ok is satisfiable by a genuinely stateful streaming decoder (pending lead
+   byte carried across chunks, "?" flushed for a truncated character at end of input): for the toy
+   two-byte charset, chunk-by-chunk decoding equals one-shot decoding for EVERY split *)
+Theorem C15_stateful_decoder_meets_the_hypothesis :
+  decoder_ok toy_dec_all toy_dec_stream_stateful.
+Proof. exact toy_stateful_decoder_ok. Qed.
+Print Assumptions C15_stateful_decoder_meets_the_hypothesis.
 
 (* non-vacuity: a concrete decoder satisfies decoder_ok, and on concrete bodies the repaired machine
    reaches io.EOF with each of the two results (declared -> transcoded, also when the first read cuts
